@@ -17,6 +17,9 @@ CONSTANTS
   Scenarios <- MCValid
   EndOnFirstEOF = %(eof)s
   CopyFromRawConn = %(raw)s
+  DropDataWithEOF = %(drop)s
+  AbortOnError = %(abort)s
+  ResetOnError = %(reset)s
   PeekN = 1
   MaxC = %(maxc)d
   MaxU = %(maxu)d
@@ -26,16 +29,31 @@ INVARIANTS %(inv)s
 """
 PROPS = "PrefixInv FirstFinisherDelivered HalfCloseGetsReply Transparent"
 ALL_KINDS = '{"tcp", "sni", "ws"}'
-ACTIONS = ["CWrite", "CFin", "CRead", "CCloseAfterEOF", "UWrite", "UFin", "URead", "UCloseAfterEOF", "Peek",
+ACTIONS = ["CWrite", "CFin", "CRead", "CCloseAfterEOF", "CAbort", "UWrite", "UFin", "URead", "UCloseAfterEOF", "Peek",
            "ReadHello", "Dial", "ProxyHdr", "ReplayHello", "Ws101", "CURead", "CUWrite", "CUEof", "UCRead",
            "UCWrite", "UCEof", "Finish"]
 SPLITS = [0, 1, 5, 8, 9, 10, 11, 43, 100, -1, -2]
 
 
-def cfg(eof=False, raw=False, maxc=2, maxu=2, kinds=ALL_KINDS, gen=False, deadlock=True):
-    return CFG % dict(eof="TRUE" if eof else "FALSE", raw="TRUE" if raw else "FALSE", maxc=maxc, maxu=maxu,
+COPIER_CFG = """SPECIFICATION Spec
+CONSTANTS
+  Scripts <- MCScripts
+  DropDataWithEOF = %s
+  MaxReads = %d
+INVARIANTS InOrder AllDelivered %s
+"""
+
+
+def cfg(eof=False, raw=False, drop=False, abort=False, reset=False, maxc=2, maxu=2, kinds=ALL_KINDS, gen=False, deadlock=True):
+    tf = lambda b: "TRUE" if b else "FALSE"
+    return CFG % dict(eof=tf(eof), raw=tf(raw), drop=tf(drop), abort=tf(abort), reset=tf(reset), maxc=maxc, maxu=maxu,
                       kinds=kinds, inv=PROPS + (" GenOut" if gen else ""),
                       dl="" if deadlock else "CHECK_DEADLOCK FALSE")
+
+
+def go_copy(ctx, cases, what, timeout=300):
+    r = ctx.gotest("proxy/tcp", ["proxy/tcp/c09copy_test.go"], "^TestVerifC09Copy$", env={"VERIF_IN": cases}, timeout=timeout)
+    return r if ctx.need_go_ok(r, what) else None
 
 
 def go_tcp(ctx, cases, what, lanes=8, timeout=840):
@@ -69,13 +87,21 @@ def build_cases(ctx, sink):
     for k in sorted(by):
         o = list(by[k].values())[0]
         sc = o["sc"]
-        paths = {"tcp": ["tcp"] + (["dyn"] if sc["proxy"] == 0 else []), "sni": ["sni"], "ws": ["ws"]}[sc["kind"]]
+        err = sc["uslow"] == 1
+        paths = {"tcp": ["tcp"] + (["dyn"] if sc["proxy"] == 0 else []) + ([] if err else ["tls"]), "sni": ["sni"], "ws": ["ws"]}[sc["kind"]]
         for path in paths:
-            spells = [rng.choice(["tiny", "line"]), rng.choice(["mix", "big", "mix"])]
+            if err:
+                # failing direction: the finished side's data must be larger than the socket buffers of the slow reader
+                spells = ["huge", "huge", rng.choice(["line", "mix"])]
+            else:
+                spells = [rng.choice(["tiny", "line"]), rng.choice(["mix", "big", "mix"])]
             for sp in spells:
                 n += 1
                 c = dict(o)
                 c.update(path=path, spell=sp, hello=rng.choice(["tls13", "tls12"]), split=rng.choice(SPLITS), id=n)
+                if path == "tls":
+                    # the terminating listener: TLS 1.2 reports close_notify as its own record (data + EOF in one Read)
+                    c.update(tlsver=rng.choice([12, 12, 13]), cork=rng.random() < 0.8)
                 (ws if path == "ws" else tcp).append(c)
     return tcp, ws, len(by)
 
@@ -92,6 +118,8 @@ def take(ctx, r, sub):
     for e in r.of_kind("error"):
         ctx.inconclusive("%s: harness error: %s" % (sub, e.get("msg")))
     s = r.summary
+    if "ran" not in s:
+        return
     if s.get("skipped", 0) > max(3, s.get("ran", 0) // 20):
         ctx.inconclusive("%s: %d of %d connections never became a tunnel (first: %s)"
                          % (sub, s["skipped"], s["ran"], (r.of_kind("skip") or [{}])[0].get("msg")))
@@ -129,20 +157,46 @@ def run(ctx):
             ctx.inconclusive("Tunnel: action(s) never taken in the property configuration: %s" % ", ".join(never))
             return
         ctx.log("coverage: all %d actions taken" % len(ACTIONS))
-    # 2. each named deviation of the pinned code, alone, is caught by TLC
+    # 2. each named deviation (the two of the pinned code, three defect classes), alone, is caught by TLC
     anyprop = tuple(PROPS.split())
-    for name, kw, expect in (("CopyFromRawConn", dict(raw=True, kinds='{"sni"}', deadlock=False), anyprop),
-                             ("EndOnFirstEOF", dict(eof=True), anyprop)):
-        d = ctx.tlc("Tunnel_MC", cfg_text=cfg(maxc=1, maxu=1, **kw), workers=4, timeout=240)
+    devs = (("CopyFromRawConn", dict(raw=True, kinds='{"sni"}', deadlock=False, maxc=1, maxu=1)),
+            ("EndOnFirstEOF", dict(eof=True, maxc=1, maxu=1)),
+            ("DropDataWithEOF", dict(drop=True, kinds='{"tcp"}', deadlock=False, maxc=1, maxu=1)),
+            ("AbortOnError", dict(abort=True, kinds='{"tcp"}', deadlock=False, maxc=1, maxu=2)),
+            ("ResetOnError", dict(reset=True, kinds='{"tcp"}', deadlock=False, maxc=1, maxu=2)))
+    from concurrent.futures import ThreadPoolExecutor
+    with ThreadPoolExecutor(max_workers=3) as ex:
+        futs = [(name, ex.submit(ctx.tlc, "Tunnel_MC", cfg_text=cfg(**kw), workers=2, timeout=300)) for name, kw in devs]
+        results = [(name, f.result()) for name, f in futs]
+    for name, d in results:
         if d.timed_out or d.error:
             ctx.need_tlc_ok(d, "Tunnel (%s)" % name)
             return
-        if d.violated not in expect:
-            ctx.inconclusive("Tunnel: the configuration with %s = TRUE (pinned code) does not violate %s (got %r): the model cannot tell the designs apart"
-                             % (name, "/".join(expect), d.violated))
+        if d.violated not in anyprop:
+            ctx.inconclusive("Tunnel: the configuration with %s = TRUE does not violate the property (got %r): the model cannot tell the designs apart"
+                             % (name, d.violated))
             return
-        ctx.log("pinned-code configuration %s = TRUE violates %s after %d states, as documented" % (name, d.violated, d.generated))
+        ctx.log("deviation %s = TRUE violates %s after %d states, as documented" % (name, d.violated, d.generated))
         ctx.cover("deviation_" + name, states_until_violation=d.distinct, violated=d.violated)
+
+    # 2b. one copy direction against the io.Reader / io.Writer contracts (Copier.tla), bound to the real copyBuffer
+    csink = os.path.join(ctx.tmp, "c09.copier")
+    cm = ctx.tlc("Copier_MC", cfg_text=COPIER_CFG % ("FALSE", ctx.pick(3, 4), "GenOut"), workers=4, json_sink=csink, timeout=300)
+    if not ctx.need_tlc_ok(cm, "Copier"):
+        return
+    cd = ctx.tlc("Copier_MC", cfg_text=COPIER_CFG % ("TRUE", 2, ""), workers=2, timeout=120)
+    if cd.timed_out or cd.error or cd.violated != "AllDelivered":
+        ctx.inconclusive("Copier: DropDataWithEOF = TRUE does not violate AllDelivered (got %r / %r)" % (cd.violated, cd.error))
+        return
+    ctx.cover("copier_mc", states=cm.distinct, transitions=cm.generated)
+    rc = go_copy(ctx, csink, "C09 copier replay")
+    if rc is None:
+        return
+    ctx.log("copier: %d reader/writer scripts (%d states) played on copyBuffer, %d evaluations, %d failed"
+            % (rc.summary["cases"], cm.distinct, rc.summary["evaluations"], rc.summary["fails"]))
+    ctx.cover("copier", traces_validated_against_impl=rc.summary["cases"], evaluations=rc.summary["evaluations"],
+              distinct_nontrivial=rc.summary["distinct_nontrivial"], samples=rc.summary.get("samples") or [])
+    take(ctx, rc, "copier")
 
     # 3. scenarios -> cases -> real proxies
     tcp, ws, nsc = build_cases(ctx, sink)
@@ -159,7 +213,11 @@ def run(ctx):
             return
         s = r.summary
         ctx.log("%s: played %d cases (%s), %d failed, %d hung, %d not tunnelled, %.0fs"
-                % (sub, s["ran"], ", ".join("%s=%s" % (k, s[k]) for k in ("tcp", "sni", "dyn", "ws") if k in s), s["fails"], s["hangs"], s["skipped"], r.wall))
+                % (sub, s["ran"], ", ".join("%s=%s" % (k, s[k]) for k in ("tcp", "sni", "dyn", "tls", "ws", "failing_direction") if k in s), s["fails"], s["hangs"], s["skipped"], r.wall))
+        for nrec in r.of_kind("note")[:3]:
+            ctx.log("note:", nrec.get("msg"))
+        if s.get("unsupported"):
+            ctx.assumptions.append("%s: %d failing-direction scenarios not played: this kernel does not keep received data across a reset" % (sub, s["unsupported"]))
         total += s["ran"]
         ctx.cover(sub, traces_validated_against_impl=s["ran"] - s["hangs"] - s["skipped"], evaluations=s["evaluations"],
                   distinct_nontrivial=s["distinct_nontrivial"], samples=s.get("samples") or [])
@@ -194,6 +252,12 @@ def replay(ctx, rp):
     c = rp["replay"]["case"]
     one = os.path.join(ctx.tmp, "c09.replay")
     vf.write_ndjson(one, [c])
+    if "reads" in c:
+        r = go_copy(ctx, one, "C09 replay")
+        if r is not None:
+            ctx.cover(evaluations=r.summary.get("evaluations", 0), traces_validated_against_impl=1)
+            take(ctx, r, "copier")
+        return
     if c.get("path") == "ws":
         r = go_ws(ctx, one, "C09 replay", lanes=1, timeout=300)
     else:
